@@ -11,11 +11,12 @@ import (
 // VerifPointHook, when set, is called at named points of the raft loop, the
 // apply loop and the snapshot goroutine. A simulator parks the calling
 // goroutine there (crash point, yield point) or just counts.
-var VerifPointHook func(name string)
+// groupID and replicaID identify the raft replica whose goroutine is calling.
+var VerifPointHook func(name string, groupID uint64, replicaID uint64)
 
-func verifPoint(name string) {
+func (rc *raftNode) verifPoint(name string) {
 	if h := VerifPointHook; h != nil {
-		h(name)
+		h(name, rc.config.GroupID, rc.config.ID)
 	}
 }
 
